@@ -497,7 +497,7 @@ func c07Wiring(c *Ctx, g *load.G) {
 		})
 		joined := strings.Join(marks, " | ")
 		ok := strings.Contains(joined, "rules[name].LeftRecursive=true under [len(scc)>1]") && strings.Contains(joined, "haveLeftRecursion=true under [len(scc)>1]") &&
-			strings.Contains(joined, "rules[name].LeftRecursive=true under [!(len(scc)>1);ok]") && strings.Contains(joined, "haveLeftRecursion=true under [!(len(scc)>1);ok]")
+			strings.Contains(joined, "rules[name].LeftRecursive=true under [len(scc)<=1;ok]") && strings.Contains(joined, "haveLeftRecursion=true under [len(scc)<=1;ok]")
 		selfLoop := false
 		ast.Inspect(cl.Body, func(n ast.Node) bool {
 			if is, ok := n.(*ast.IfStmt); ok && is.Init != nil && strings.Contains(nospace(is.Init.(*ast.AssignStmt).Rhs[0]), "graph[name][name]") {
